@@ -218,6 +218,7 @@ def r4_outdir(run, F):
     ok = False
     detail = ""
     write_path_lids = set()
+    writers = []
     for n in walk(c["hir"]):
         if n.get("k") == "If":
             cond = hirq.unwrap_trivial(n["cond"])
@@ -235,6 +236,22 @@ def r4_outdir(run, F):
                         ow = _or.origins(c["hir"], x["a"][1], c.get("params", ()))
                         seq.append(("write:%s" % ("ir" if ("call", "alpha::Compiler::generate_ir") in ow else "?"), x["l"]))
                         write_path_lids.add(hirq.unwrap_trivial(x["a"][0]).get("lid"))
+                        writers.append((x, True))
+                    elif (x.get("k") == "MethodCall" and x.get("name") == "write_all" and x.get("a")) or (x.get("k") == "Call" and cn.endswith("Write::write_all") and len(x.get("a", [])) == 2):
+                        # the same through an explicit file handle: File::create(path) or OpenOptions..open(path), then write_all(ir)
+                        from rules import origins as _or
+                        ow = _or.origins(c["hir"], x["a"][-1], c.get("params", ()))
+                        opens = [y for y in hirq.calls(n["then"]) if (hirq.callee(y) or "").endswith(("File::create", "OpenOptions::open", "File::create_new"))]
+                        if not opens:
+                            continue
+                        seq.append(("write:%s" % ("ir" if ("call", "alpha::Compiler::generate_ir") in ow else "?"), x["l"]))
+                        for y in opens:
+                            pa = [z for z in walk(y["a"][-1] if y.get("a") else {}) if z.get("k") == "Path" and z.get("rk") == "Local"]
+                            write_path_lids.update(z.get("lid") for z in pa)
+                            chain = [(z.get("name"), hirq.unwrap_trivial(z["a"][0]).get("v") if z.get("a") else None) for z in walk(y) if z.get("k") == "MethodCall"]
+                            trunc = (hirq.callee(y) or "").endswith(("File::create", "File::create_new")) or \
+                                ((("truncate", True) in chain or ("create_new", True) in chain) and ("append", True) not in chain)
+                            writers.append((y, trunc))
                 names = [s[0] for s in sorted(seq, key=lambda s: s[1])]
                 detail = str(names)
                 ok = names == ["set_extension:pn.ll", "create_dir_all", "write:ir"]
@@ -270,13 +287,16 @@ def r4_outdir(run, F):
     run.ob("R4-OUT-DIR", "file name injective in the module path", whole and not extra, F.where(c, init),
            "the IR of module P goes to <out_dir>/P.pn.ll with P the whole path as given; dropping or rewriting components lets two modules "
            "share one file (the later silently overwrites the earlier): path operations %s, not reviewed: %s" % (used, extra))
+    run.ob("R4-OUT-DIR", "an existing file is replaced, not overlaid", bool(writers) and all(t for _, t in writers), F.where(c, writers[0][0]) if writers else F.where(c),
+           "the module's IR replaces whatever the file held (std::fs::write, File::create, or OpenOptions with truncate): otherwise the tail of a longer, older "
+           ".pn.ll survives behind the new IR and the tool still exits 0")
     # `ir` is this iteration's generate_ir()
     ok2 = "write:ir" in detail
     run.ob("R4-OUT-DIR", "ir = compiler.generate_ir()", ok2, F.where(c), "the text written is the module's own IR")
     # the write happens inside the per-module loop, after compile()
     cfg = mirq.CFG(c)
     comp = [i for i, t in cfg.calls() if mirq.call_target(t) == "alpha::Compiler::compile"]
-    wr = [i for i, t in cfg.calls() if mirq.call_target(t) == "std::fs::write"]
+    wr = [i for i, t in cfg.calls() if mirq.call_target(t) == "std::fs::write" or (mirq.call_target(t) or "").endswith("io::Write>::write_all") or (mirq.call_target(t) or "").endswith("Write::write_all")]
     ok3 = bool(comp) and bool(wr) and all(cfg.dominates(comp[0], w) for w in wr) and any(w in cfg.reachable_from(cfg.succ[w]) for w in wr)
     run.ob("R4-OUT-DIR", "write inside the module loop after compile", ok3, F.where(c), "one file per module")
     # `set_extension` *replaces* the last extension (x.pn and x.txt, or x.pn given twice, name the same file): either the file name is
